@@ -471,6 +471,34 @@ pub fn def(ctx: &Ctx) -> PropDef {
             },
             check_pair,
         ));
+        // width-related pairs: the same low w bits zero-extended and sign-extended (or extended by
+        // arbitrary high bits). Code that narrows a value to i8 / i16 / i32 / u32 and widens it
+        // again merges exactly such pairs, and no random pair is one.
+        subs.push(PSub::boxed(
+            format!("width-related/{}", part),
+            t.pick(6_000, 500_000),
+            || {
+                let w = prop_oneof![6 => prop_oneof![Just(8u32), Just(16), Just(31), Just(32), Just(33)], 2 => 1u32..64];
+                let map = prop_oneof![3 => word().prop_map(|t| MapSel::FoldPool { t }), 5 => word().prop_map(|d| MapSel::FoldTime { d }), 2 => Just(MapSel::Stir), 1 => map_sel(true)];
+                (map, any::<u64>(), w, any::<bool>(), prop_oneof![3 => Just(u64::MAX), 1 => any::<u64>()]).prop_map(|(map, v, w, top, hi)| {
+                    let low = (1u64 << w) - 1;
+                    // low w bits, bit w-1 forced to `top`; x is its sign extension when top is set
+                    let mut b = v & low;
+                    if top {
+                        b |= 1u64 << (w - 1);
+                    } else {
+                        b &= !(1u64 << (w - 1));
+                    }
+                    let ext = if top { !low } else { 0 };
+                    let mut diff = hi & !low;
+                    if diff == 0 {
+                        diff = !low;
+                    }
+                    PairCase { map, x: b | ext, diff }
+                }).boxed()
+            },
+            check_pair,
+        ));
     }
     for part in 0..2 {
         subs.push(PSub::boxed(
@@ -505,7 +533,7 @@ pub fn def(ctx: &Ctx) -> PropDef {
     subs.push(PSub::boxed("birthday", t.pick(8, 24), move || (map_sel(false), any::<u64>()).prop_map(move |(map, start)| BirthdayCase { map, start, log2_samples: lg }).boxed(), check_birthday));
     PropDef {
         id: "C15",
-        rule: "three maps of the 64-bit pool are observed on the real code through the cfg(rngs_verif) hooks: the LFSR fold F(d,t) (in d for generated fixed t, in t for generated fixed d), the stir S(d), whole collections C_s(d) over generated timer scripts (fold + rotate-by-7 + stir composed), the fold with variable loop counts (timer_stats(true), loop-count readings generated), whole test_timer() runs over scripted timers (accepted and rejected ones), and generated histories of public calls (start pool -> pool after output calls, timer_stats, set_rounds, test_timer and clones, so that a call also runs while a half is pending). Generated inputs (uniform, sparse 1-3 bits, dense, half-word, zero): (1) affinity triples M(a)^M(b)^M(c) = M(a^b^c) with a pairwise collision test, and joint affinity of F in (d,t); (2) if affine: the 64x64 linear part extracted from the basis must have rank 64 (a defect gives a kernel vector and an executed colliding pair), and the real map must follow the affine rule also at its algebraically special inputs (fixed point, result = complement of input, result = 0 / all ones), solved for from the extracted map, and for whole collections at the inputs that make the pool 0 / all ones at an intermediate stage (after the first fold and rotation, before the last rotation, before the stir), solved through the documented procedure; (3) model-free collision search: single-bit, double-bit, byte and random differentials, a birthday search over 2^16 (thorough 2^21) outputs per map, and orbit-related inputs: chains x, g(x), g(g(x)), ... of 4-16 pool contents related by a building block g of the step itself (the documented or the real single LFSR fold with the time value the map folds first, another fold, a rotation, the documented stir, an addition) must be mapped to pairwise different results (a step that applies a building block a pool-dependent number of times merges exactly such inputs). Only an executed collision is a violation; a non-affine map gets no algebraic verdict. Non-trivial = triple of three distinct non-zero values / pair with a non-zero difference; distinct by hash of the case.".into(),
+        rule: "three maps of the 64-bit pool are observed on the real code through the cfg(rngs_verif) hooks: the LFSR fold F(d,t) (in d for generated fixed t, in t for generated fixed d), the stir S(d), whole collections C_s(d) over generated timer scripts (fold + rotate-by-7 + stir composed), the fold with variable loop counts (timer_stats(true), loop-count readings generated), whole test_timer() runs over scripted timers (accepted and rejected ones), and generated histories of public calls (start pool -> pool after output calls, timer_stats, set_rounds, test_timer and clones, so that a call also runs while a half is pending). Generated inputs (uniform, sparse 1-3 bits, dense, half-word, zero): (1) affinity triples M(a)^M(b)^M(c) = M(a^b^c) with a pairwise collision test, and joint affinity of F in (d,t); (2) if affine: the 64x64 linear part extracted from the basis must have rank 64 (a defect gives a kernel vector and an executed colliding pair), and the real map must follow the affine rule also at its algebraically special inputs (fixed point, result = complement of input, result = 0 / all ones), solved for from the extracted map, and for whole collections at the inputs that make the pool 0 / all ones at an intermediate stage (after the first fold and rotation, before the last rotation, before the stir), solved through the documented procedure; (3) model-free collision search: single-bit, double-bit, byte and random differentials, a birthday search over 2^16 (thorough 2^21) outputs per map, and orbit-related inputs: chains x, g(x), g(g(x)), ... of 4-16 pool contents related by a building block g of the step itself (the documented or the real single LFSR fold with the time value the map folds first, another fold, a rotation, the documented stir, an addition) must be mapped to pairwise different results (a step that applies a building block a pool-dependent number of times merges exactly such inputs). Only an executed collision is a violation; a non-affine map gets no algebraic verdict. Width-related pairs (the same low 8/16/31/32/33/w bits zero-extended vs sign- or otherwise extended) must not collide either. Non-trivial = triple of three distinct non-zero values / pair with a non-zero difference; distinct by hash of the case.".into(),
         explanation: Some("2^64 x 2^64 inputs cannot be enumerated. The pool updates are XOR/shift/rotate networks, i.e. affine maps over GF(2); generated triples establish affinity (BLR test), the linear part is then read off the real code on the 64 basis inputs and its rank decides bijectivity exactly. The rotation by 7 cannot be isolated through the hooks, but a composition of maps on a finite set is bijective only if every factor is, so the rank of whole collections covers it. The LFSR taps themselves are C12's subject: a different but bijective fold does not alarm here.".into()),
         assumptions: vec!["affinity outside the sampled triples".into(), "hooks verif_pool / verif_set_pool / verif_stir_once observe and set JitterRng's pool without other effects".into()],
         subs,
